@@ -119,7 +119,7 @@ fn encode_case(rng: &mut Rng, out: &mut CaseOut) {
         0 => 0,
         1 => 1,
         2 => 63,
-        _ => *rng.pick(&[2usize, 4, 30, 64, 66, 130]),
+        _ => *rng.pick(&[2usize, 4, 30, 62, 64, 66, 100, 130]),
     };
     // now and then few but very long shards (64 KiB ... 3 MiB): where a
     // one-shot function would start to work piecewise
@@ -315,7 +315,7 @@ fn streaming_decode(
 
 fn decode_case(rng: &mut Rng, out: &mut CaseOut) {
     let (mut k, mut r) = counts(rng);
-    let mut size = *rng.pick(&[2usize, 4, 30, 64, 66, 130]);
+    let mut size = *rng.pick(&[2usize, 4, 30, 62, 64, 66, 100, 130]);
     if rng.chance(1, 50) {
         k = rng.range(1, 5);
         r = rng.range(1, 4);
